@@ -68,12 +68,25 @@ func (s *Stream) Close() {
 	s.mu.Unlock()
 }
 
-func (s *Stream) read(p []byte, max int) (int, error) {
+func (s *Stream) read(p []byte, max int, timeout time.Duration) (int, error) {
 	s.mu.Lock()
 	defer s.mu.Unlock()
+	var timedOut bool
+	if timeout > 0 && len(s.buf) == 0 && !s.closed {
+		t := time.AfterFunc(timeout, func() {
+			s.mu.Lock()
+			timedOut = true
+			s.cond.Broadcast()
+			s.mu.Unlock()
+		})
+		defer t.Stop()
+	}
 	for len(s.buf) == 0 {
 		if s.closed {
 			return 0, io.EOF
+		}
+		if timedOut {
+			return 0, TimeoutErr{}
 		}
 		s.cond.Wait()
 	}
@@ -96,6 +109,9 @@ type End struct {
 	// Frag, if set, returns the maximum number of bytes the next Read may
 	// return (0 = no limit).
 	Frag func() int
+	// ReadTimeout, if set, makes a Read that gets no data for that long
+	// (real time) fail with a timeout error.
+	ReadTimeout time.Duration
 	// WritePlan: number of bytes accepted by successive Write calls before
 	// a timeout error is returned; when exhausted, writes are accepted in
 	// full.
@@ -115,7 +131,7 @@ func (e *End) Read(p []byte) (int, error) {
 	if e.Frag != nil {
 		max = e.Frag()
 	}
-	return e.In.read(p, max)
+	return e.In.read(p, max, e.ReadTimeout)
 }
 
 func (e *End) Write(p []byte) (int, error) {
